@@ -351,6 +351,21 @@ class K53(icontract.DBC):
         self.parts.append(part)
 
 
+@icontract.require(lambda value: (kind := value.__class__) is str or kind is bytes, enabled=True)
+def f57(value):
+    return value
+
+
+@icontract.require(lambda x, table: (getter := table.get) is None or (found := getter(x)) is not None, enabled=True)
+def f58(x, table):
+    return x
+
+
+@icontract.require(lambda x: (fn := helper) is None or (mod := math) is None or (bi := abs) is None or fn(x) + mod.floor(x) + bi(x) < 0, enabled=True)
+def f59(x):
+    return x
+
+
 def make_limited():
     """A contracted function whose lambda condition reads a closure variable that can be re-bound later."""
     limit = 10
@@ -430,5 +445,8 @@ CASES = [
     {"id": "c54", "fn": "f03", "args": [], "kwargs": {"s": "\\" * 150 + "\n" * 60}},
     {"id": "c55", "fn": "f20", "args": [], "kwargs": {"s": "\\" * 9 + "\n\t"}, "a_repr": SMALL},
     {"id": "c56", "fn": "f46", "args": [], "kwargs": {"xs": ["ab", "\\\n" * 4]}, "a_repr": SMALL, "all_vars": {"x": "\\\n" * 4}},
+    {"id": "c57", "fn": "f57", "args": [], "kwargs": {"value": 3}, "hidden_exprs": ["kind"]},
+    {"id": "c58", "fn": "f58", "args": [], "kwargs": {"x": 3, "table": {1: 2}}, "hidden_exprs": ["getter"]},
+    {"id": "c59", "fn": "f59", "args": [], "kwargs": {"x": 3}, "hidden_exprs": ["fn", "mod", "bi"]},
     {"id": "c45", "fn": "f45", "args": [], "kwargs": {"x": 123456789012345678901234567890, "helper_fn": helper}, "a_repr": SMALL, "hidden": ["helper_fn"]},
 ]
